@@ -6,18 +6,24 @@ use wtransport_proto::frame::{Frame, FrameKind};
 use wtransport_proto::stream::Stream;
 use wtransport_proto::stream_header::{StreamHeader, StreamKind};
 
-// @h props=C01,C16 tier=quick t=2400 sub=uni-preamble
-// @fn wtransport-proto/src/stream.rs StreamUniLocalQuic::{upgrade_async,upgrade_size} StreamUniRemoteQuic::upgrade_async StreamUniRemoteH3::{kind,session_id,upgrade}; wtransport-proto/src/stream_header.rs StreamHeader::{write_async,read_async}; wtransport-proto/src/bytes.rs PutVarint GetVarint
-// @bound every session id (4q, q < 2^60: every varint length); 0..=4 application bytes after the preamble, symbolic (so bytes that look like a varint prefix 0xC0.., a frame or another preamble are included); byte-wise delivery (other chunkings / Pending: C15 L1)
-// @oracle the opener writes exactly varint(0x54)||varint(sid) (reference encoder) == upgrade_size bytes and nothing else; the acceptor yields a WebTransport stream with the same session id having consumed exactly those bytes; the bytes that follow are the application bytes, untouched and in order
-// @assume From<io::Error> stubs; model source/sink never fail
-// @outside ordered reliable delivery, flow control, FIN, concurrency between streams (quinn); hand-off through the worker's channels (C08, not applicable)
-#[kani::proof]
-#[kani::unwind(18)]
-#[kani::stub(<wtransport_proto::bytes::IoReadError as std::convert::From<std::io::Error>>::from, crate::common::io_read_err_stub)]
-#[kani::stub(<wtransport_proto::bytes::IoWriteError as std::convert::From<std::io::Error>>::from, crate::common::io_write_err_stub)]
-fn c01_uni_preamble() {
-    let sid = any_session_id();
+
+/// a valid session id whose varint encoding has exactly 1 << CLS bytes (CLS = 0..=3)
+fn session_id_of_class<const CLS: u8>() -> wtransport_proto::ids::SessionId {
+    use wtransport_proto::ids::{SessionId, StreamId};
+    use wtransport_proto::varint::VarInt;
+    let q: u64 = kani::any();
+    let v = q << 2;
+    match CLS {
+        0 => kani::assume(v < (1 << 6)),
+        1 => kani::assume(v >= (1 << 6) && v < (1 << 14)),
+        2 => kani::assume(v >= (1 << 14) && v < (1 << 30)),
+        _ => kani::assume(v >= (1 << 30) && q <= (1u64 << 60) - 1),
+    }
+    SessionId::try_from_session_stream(StreamId::new(VarInt::try_from_u64(v).unwrap())).unwrap()
+}
+
+fn uni_preamble<const CLS: u8>() {
+    let sid = session_id_of_class::<CLS>();
     let v = sid.into_u64();
     let hdr = StreamHeader::new_webtransport(sid);
     let size = wtransport_proto::stream::unilocal::StreamUniLocalQuic::upgrade_size(StreamHeader::new_webtransport(sid));
@@ -59,25 +65,16 @@ fn c01_uni_preamble() {
                 assert!(rd.data[rd.off + i] == app[i], "application bytes altered");
                 i += 1;
             }
-            kani::cover!(rn == 10 && k == 4 && app[0] >= 0xC0, "8-byte session id; app bytes starting like an 8-byte varint");
-            kani::cover!(rn == 3 && k == 0, "1-byte session id; no application bytes");
+            kani::cover!(k == 4 && app[0] >= 0xC0, "app bytes starting like an 8-byte varint");
+            kani::cover!(k == 0, "no application bytes");
             kani::cover!(k >= 2 && app[0] == 0x40 && app[1] == 0x54, "application bytes that look like another preamble");
         }
         Err(_) => assert!(false, "acceptor refused a preamble written by the opener"),
     }
 }
 
-// @h props=C01,C16 tier=quick t=2400 sub=bi-preamble
-// @fn wtransport-proto/src/stream.rs StreamBiLocalH3::{upgrade_async,upgrade_size} StreamBiRemoteH3::{read_frame_async,upgrade}; wtransport-proto/src/frame.rs Frame::{write_async,read_async,new_webtransport}
-// @bound as c01_uni_preamble (bidirectional stream: signal 0x41)
-// @oracle opener writes exactly varint(0x41)||varint(sid) == upgrade_size; acceptor's first frame is the WT signal with the same id, consuming exactly those bytes; following application bytes untouched
-// @assume From<io::Error> stubs; model source/sink never fail
-#[kani::proof]
-#[kani::unwind(18)]
-#[kani::stub(<wtransport_proto::bytes::IoReadError as std::convert::From<std::io::Error>>::from, crate::common::io_read_err_stub)]
-#[kani::stub(<wtransport_proto::bytes::IoWriteError as std::convert::From<std::io::Error>>::from, crate::common::io_write_err_stub)]
-fn c01_bi_preamble() {
-    let sid = any_session_id();
+fn bi_preamble<const CLS: u8>() {
+    let sid = session_id_of_class::<CLS>();
     let v = sid.into_u64();
     let h3 = Stream::open_bi().upgrade();
     let size = h3.upgrade_size(sid);
@@ -121,7 +118,7 @@ fn c01_bi_preamble() {
                 assert!(rd.data[rd.off + i] == app[i], "application bytes altered");
                 i += 1;
             }
-            kani::cover!(rn == 10 && k == 4, "8-byte session id, 4 application bytes");
+            kani::cover!(k == 4, "4 application bytes");
             kani::cover!(k >= 2 && app[0] == 0x00 && app[1] == 0x02, "application bytes that look like a DATA frame");
             core::mem::forget(f);
         }
@@ -129,12 +126,124 @@ fn c01_bi_preamble() {
     }
 }
 
-// @h props=C01 tier=quick t=900 sub=sync-preamble
+// @h props=C01,C16 tier=quick t=2400 mem=20 sub=uni-preamble
+// @fn wtransport-proto/src/stream.rs StreamUniLocalQuic::{upgrade_async,upgrade_size} StreamUniRemoteQuic::upgrade_async StreamUniRemoteH3::{kind,session_id,upgrade}; wtransport-proto/src/stream_header.rs StreamHeader::{write_async,read_async}; wtransport-proto/src/bytes.rs PutVarint GetVarint
+// @bound every session id whose varint is 1-byte long (classes 1- and 8-byte in the quick tier, 2- and 4-byte in thorough); 0..=4 application bytes after the preamble, symbolic (bytes that look like a varint prefix 0xC0.., a frame or another preamble included); byte-wise delivery (other chunkings / Pending: C15 L1)
+// @oracle the opener writes exactly varint(0x54)||varint(sid) (reference encoder) == upgrade_size bytes and nothing else; the acceptor yields a WebTransport stream with the same session id having consumed exactly those bytes; the bytes that follow are the application bytes, untouched and in order
+// @assume From<io::Error> stubs; model source/sink never fail
+// @outside ordered reliable delivery, flow control, FIN, concurrency between streams (quinn); hand-off through the worker's channels (C08, not applicable)
+#[kani::proof]
+#[kani::unwind(12)]
+#[kani::stub(<wtransport_proto::bytes::IoReadError as std::convert::From<std::io::Error>>::from, crate::common::io_read_err_stub)]
+#[kani::stub(<wtransport_proto::bytes::IoWriteError as std::convert::From<std::io::Error>>::from, crate::common::io_write_err_stub)]
+fn c01_uni_preamble_id1() {
+    uni_preamble::<0>()
+}
+
+// @h props=C01,C16 tier=thorough t=2400 mem=20 sub=uni-preamble
+// @fn wtransport-proto/src/stream.rs StreamUniLocalQuic::{upgrade_async,upgrade_size} StreamUniRemoteQuic::upgrade_async StreamUniRemoteH3::{kind,session_id,upgrade}; wtransport-proto/src/stream_header.rs StreamHeader::{write_async,read_async}; wtransport-proto/src/bytes.rs PutVarint GetVarint
+// @bound every session id whose varint is 2-byte long (classes 1- and 8-byte in the quick tier, 2- and 4-byte in thorough); 0..=4 application bytes after the preamble, symbolic (bytes that look like a varint prefix 0xC0.., a frame or another preamble included); byte-wise delivery (other chunkings / Pending: C15 L1)
+// @oracle the opener writes exactly varint(0x54)||varint(sid) (reference encoder) == upgrade_size bytes and nothing else; the acceptor yields a WebTransport stream with the same session id having consumed exactly those bytes; the bytes that follow are the application bytes, untouched and in order
+// @assume From<io::Error> stubs; model source/sink never fail
+// @outside ordered reliable delivery, flow control, FIN, concurrency between streams (quinn); hand-off through the worker's channels (C08, not applicable)
+#[kani::proof]
+#[kani::unwind(12)]
+#[kani::stub(<wtransport_proto::bytes::IoReadError as std::convert::From<std::io::Error>>::from, crate::common::io_read_err_stub)]
+#[kani::stub(<wtransport_proto::bytes::IoWriteError as std::convert::From<std::io::Error>>::from, crate::common::io_write_err_stub)]
+fn c01_uni_preamble_id2() {
+    uni_preamble::<1>()
+}
+
+// @h props=C01,C16 tier=thorough t=2400 mem=20 sub=uni-preamble
+// @fn wtransport-proto/src/stream.rs StreamUniLocalQuic::{upgrade_async,upgrade_size} StreamUniRemoteQuic::upgrade_async StreamUniRemoteH3::{kind,session_id,upgrade}; wtransport-proto/src/stream_header.rs StreamHeader::{write_async,read_async}; wtransport-proto/src/bytes.rs PutVarint GetVarint
+// @bound every session id whose varint is 4-byte long (classes 1- and 8-byte in the quick tier, 2- and 4-byte in thorough); 0..=4 application bytes after the preamble, symbolic (bytes that look like a varint prefix 0xC0.., a frame or another preamble included); byte-wise delivery (other chunkings / Pending: C15 L1)
+// @oracle the opener writes exactly varint(0x54)||varint(sid) (reference encoder) == upgrade_size bytes and nothing else; the acceptor yields a WebTransport stream with the same session id having consumed exactly those bytes; the bytes that follow are the application bytes, untouched and in order
+// @assume From<io::Error> stubs; model source/sink never fail
+// @outside ordered reliable delivery, flow control, FIN, concurrency between streams (quinn); hand-off through the worker's channels (C08, not applicable)
+#[kani::proof]
+#[kani::unwind(12)]
+#[kani::stub(<wtransport_proto::bytes::IoReadError as std::convert::From<std::io::Error>>::from, crate::common::io_read_err_stub)]
+#[kani::stub(<wtransport_proto::bytes::IoWriteError as std::convert::From<std::io::Error>>::from, crate::common::io_write_err_stub)]
+fn c01_uni_preamble_id4() {
+    uni_preamble::<2>()
+}
+
+// @h props=C01,C16 tier=quick t=2400 mem=20 sub=uni-preamble
+// @fn wtransport-proto/src/stream.rs StreamUniLocalQuic::{upgrade_async,upgrade_size} StreamUniRemoteQuic::upgrade_async StreamUniRemoteH3::{kind,session_id,upgrade}; wtransport-proto/src/stream_header.rs StreamHeader::{write_async,read_async}; wtransport-proto/src/bytes.rs PutVarint GetVarint
+// @bound every session id whose varint is 8-byte long (classes 1- and 8-byte in the quick tier, 2- and 4-byte in thorough); 0..=4 application bytes after the preamble, symbolic (bytes that look like a varint prefix 0xC0.., a frame or another preamble included); byte-wise delivery (other chunkings / Pending: C15 L1)
+// @oracle the opener writes exactly varint(0x54)||varint(sid) (reference encoder) == upgrade_size bytes and nothing else; the acceptor yields a WebTransport stream with the same session id having consumed exactly those bytes; the bytes that follow are the application bytes, untouched and in order
+// @assume From<io::Error> stubs; model source/sink never fail
+// @outside ordered reliable delivery, flow control, FIN, concurrency between streams (quinn); hand-off through the worker's channels (C08, not applicable)
+#[kani::proof]
+#[kani::unwind(12)]
+#[kani::stub(<wtransport_proto::bytes::IoReadError as std::convert::From<std::io::Error>>::from, crate::common::io_read_err_stub)]
+#[kani::stub(<wtransport_proto::bytes::IoWriteError as std::convert::From<std::io::Error>>::from, crate::common::io_write_err_stub)]
+fn c01_uni_preamble_id8() {
+    uni_preamble::<3>()
+}
+
+// @h props=C01,C16 tier=quick t=2400 mem=20 sub=bi-preamble
+// @fn wtransport-proto/src/stream.rs StreamBiLocalH3::{upgrade_async,upgrade_size} StreamBiRemoteH3::{read_frame_async,upgrade}; wtransport-proto/src/frame.rs Frame::{write_async,read_async,new_webtransport}
+// @bound every session id whose varint is 1-byte long (classes 1- and 8-byte in the quick tier, 2- and 4-byte in thorough); 0..=4 application bytes after the preamble, symbolic (bytes that look like a varint prefix 0xC0.., a frame or another preamble included); byte-wise delivery (other chunkings / Pending: C15 L1)
+// @oracle the opener writes exactly varint(0x41)||varint(sid) (reference encoder) == upgrade_size bytes and nothing else; the acceptor yields a WebTransport stream with the same session id having consumed exactly those bytes; the bytes that follow are the application bytes, untouched and in order
+// @assume From<io::Error> stubs; model source/sink never fail
+// @outside ordered reliable delivery, flow control, FIN, concurrency between streams (quinn); hand-off through the worker's channels (C08, not applicable)
+#[kani::proof]
+#[kani::unwind(12)]
+#[kani::stub(<wtransport_proto::bytes::IoReadError as std::convert::From<std::io::Error>>::from, crate::common::io_read_err_stub)]
+#[kani::stub(<wtransport_proto::bytes::IoWriteError as std::convert::From<std::io::Error>>::from, crate::common::io_write_err_stub)]
+fn c01_bi_preamble_id1() {
+    bi_preamble::<0>()
+}
+
+// @h props=C01,C16 tier=thorough t=2400 mem=20 sub=bi-preamble
+// @fn wtransport-proto/src/stream.rs StreamBiLocalH3::{upgrade_async,upgrade_size} StreamBiRemoteH3::{read_frame_async,upgrade}; wtransport-proto/src/frame.rs Frame::{write_async,read_async,new_webtransport}
+// @bound every session id whose varint is 2-byte long (classes 1- and 8-byte in the quick tier, 2- and 4-byte in thorough); 0..=4 application bytes after the preamble, symbolic (bytes that look like a varint prefix 0xC0.., a frame or another preamble included); byte-wise delivery (other chunkings / Pending: C15 L1)
+// @oracle the opener writes exactly varint(0x41)||varint(sid) (reference encoder) == upgrade_size bytes and nothing else; the acceptor yields a WebTransport stream with the same session id having consumed exactly those bytes; the bytes that follow are the application bytes, untouched and in order
+// @assume From<io::Error> stubs; model source/sink never fail
+// @outside ordered reliable delivery, flow control, FIN, concurrency between streams (quinn); hand-off through the worker's channels (C08, not applicable)
+#[kani::proof]
+#[kani::unwind(12)]
+#[kani::stub(<wtransport_proto::bytes::IoReadError as std::convert::From<std::io::Error>>::from, crate::common::io_read_err_stub)]
+#[kani::stub(<wtransport_proto::bytes::IoWriteError as std::convert::From<std::io::Error>>::from, crate::common::io_write_err_stub)]
+fn c01_bi_preamble_id2() {
+    bi_preamble::<1>()
+}
+
+// @h props=C01,C16 tier=thorough t=2400 mem=20 sub=bi-preamble
+// @fn wtransport-proto/src/stream.rs StreamBiLocalH3::{upgrade_async,upgrade_size} StreamBiRemoteH3::{read_frame_async,upgrade}; wtransport-proto/src/frame.rs Frame::{write_async,read_async,new_webtransport}
+// @bound every session id whose varint is 4-byte long (classes 1- and 8-byte in the quick tier, 2- and 4-byte in thorough); 0..=4 application bytes after the preamble, symbolic (bytes that look like a varint prefix 0xC0.., a frame or another preamble included); byte-wise delivery (other chunkings / Pending: C15 L1)
+// @oracle the opener writes exactly varint(0x41)||varint(sid) (reference encoder) == upgrade_size bytes and nothing else; the acceptor yields a WebTransport stream with the same session id having consumed exactly those bytes; the bytes that follow are the application bytes, untouched and in order
+// @assume From<io::Error> stubs; model source/sink never fail
+// @outside ordered reliable delivery, flow control, FIN, concurrency between streams (quinn); hand-off through the worker's channels (C08, not applicable)
+#[kani::proof]
+#[kani::unwind(12)]
+#[kani::stub(<wtransport_proto::bytes::IoReadError as std::convert::From<std::io::Error>>::from, crate::common::io_read_err_stub)]
+#[kani::stub(<wtransport_proto::bytes::IoWriteError as std::convert::From<std::io::Error>>::from, crate::common::io_write_err_stub)]
+fn c01_bi_preamble_id4() {
+    bi_preamble::<2>()
+}
+
+// @h props=C01,C16 tier=quick t=2400 mem=20 sub=bi-preamble
+// @fn wtransport-proto/src/stream.rs StreamBiLocalH3::{upgrade_async,upgrade_size} StreamBiRemoteH3::{read_frame_async,upgrade}; wtransport-proto/src/frame.rs Frame::{write_async,read_async,new_webtransport}
+// @bound every session id whose varint is 8-byte long (classes 1- and 8-byte in the quick tier, 2- and 4-byte in thorough); 0..=4 application bytes after the preamble, symbolic (bytes that look like a varint prefix 0xC0.., a frame or another preamble included); byte-wise delivery (other chunkings / Pending: C15 L1)
+// @oracle the opener writes exactly varint(0x41)||varint(sid) (reference encoder) == upgrade_size bytes and nothing else; the acceptor yields a WebTransport stream with the same session id having consumed exactly those bytes; the bytes that follow are the application bytes, untouched and in order
+// @assume From<io::Error> stubs; model source/sink never fail
+// @outside ordered reliable delivery, flow control, FIN, concurrency between streams (quinn); hand-off through the worker's channels (C08, not applicable)
+#[kani::proof]
+#[kani::unwind(12)]
+#[kani::stub(<wtransport_proto::bytes::IoReadError as std::convert::From<std::io::Error>>::from, crate::common::io_read_err_stub)]
+#[kani::stub(<wtransport_proto::bytes::IoWriteError as std::convert::From<std::io::Error>>::from, crate::common::io_write_err_stub)]
+fn c01_bi_preamble_id8() {
+    bi_preamble::<3>()
+}
+
+// @h props=C01 tier=quick t=2400 sub=sync-preamble
 // @fn wtransport-proto/src/stream.rs StreamUniLocalQuic::upgrade StreamBiLocalH3::upgrade StreamUniRemoteQuic::upgrade StreamBiRemoteH3::read_frame
 // @bound every session id; one-shot (buffer) variants of both preambles with 2 trailing application bytes
 // @oracle same as the async harnesses: bytes == reference preamble, reader consumes exactly the preamble
 #[kani::proof]
-#[kani::unwind(18)]
+#[kani::unwind(12)]
 fn c01_sync_preamble() {
     use wtransport_proto::stream::uniremote::MaybeUpgradeH3;
     let sid = any_session_id();
